@@ -1,20 +1,71 @@
-(* C01 - Wire format conforms to 9P2000 and round-trips for every message. *)
-From Coq Require Import List NArith String Bool.
-From P9 Require Import Base.Res Base.Bytes Model.WireTypes Model.Spec9P Model.Wire Gen.GenWire Proofs.WireTables.
+(* C01 - Wire format conforms to 9P2000 and round-trips for every message.
+   Statements only; proofs are in Proofs/WireTables.v, WireProofs.v, WireLayout.v. *)
+From Coq Require Import List NArith ZArith String Bool.
+From P9 Require Import Base.Res Base.Bytes Model.WireTypes Model.Spec9P Model.Wire Gen.GenWire
+  Proofs.WireTables Proofs.WireProofs Proofs.WireLayout.
 Import ListNotations.
-Open Scope string_scope.
+Open Scope N_scope.
+Open Scope list_scope.
 
-(* 1. what the reflection-driven Go codec sees in the CURRENT source (regenerated on every run)
-      is the manual's table: 27 message kinds, field order and widths, the stat and qid layouts,
-      the argument orders of the hand-written Qid/Fcall cases, the integer case arms, Type() methods *)
+(* 1. What the reflection-driven Go codec sees in the CURRENT source (regenerated on every run) is
+      the manual's table: 27 message kinds, field order and widths, the stat and qid layouts, the
+      argument orders of the hand-written Qid/Fcall cases of encode/decode/size9p, the integer case
+      arms (a named integer type missing there would silently encode as nothing), the Type() methods. *)
 Theorem C01_tables :
   gen_kinds_table = spec_kinds_table /\
   map snd gen_dir_fields = spec_dir_kinds /\
   map snd gen_qid_fields = spec_qid_kinds /\
   map fst gen_qid_fields = gen_qid_enc_order /\ gen_qid_enc_order = gen_qid_dec_order /\ gen_qid_enc_order = gen_qid_size_order /\
-  gen_fcall_enc_order = ["Type"; "Tag"; "Message"] /\ gen_fcall_dec_order = ["Type"; "Tag"] /\
+  gen_fcall_enc_order = ["Type"; "Tag"; "Message"]%string /\ gen_fcall_dec_order = ["Type"; "Tag"]%string /\
   gen_fcall_size_order = gen_fcall_enc_order /\ map fst gen_fcall_fields = gen_fcall_enc_order /\
   int_arms_ok = true /\ type_methods_ok = true /\
   List.length spec_kinds_table = 27%nat.
 Proof. exact tables_agree. Qed.
 Print Assumptions C01_tables.
+
+(* 2. For every wire-representable message (wf_fcall: integers within their width, strings <= 65535
+      bytes, lists <= 65535 elements, stat record <= 65535 bytes, whole-second 32-bit timestamps, fields
+      of the kinds its type byte prescribes) the encoder produces exactly the manual's byte layout. *)
+Theorem C01_layout : forall f, wf_fcall f = true -> spec_layout f = Some (enc_fcall f).
+Proof. exact layout_is_manual. Qed.
+Print Assumptions C01_layout.
+
+(* 3. The reported size (size9p, computed in uint32) equals the number of bytes produced. *)
+Theorem C01_size : forall f, wf_fcall f = true -> size_fcall f = len (enc_fcall f).
+Proof. exact size_fcall_len. Qed.
+Print Assumptions C01_size.
+
+(* 4. Decoding the bytes (followed by anything) yields the original message. *)
+Theorem C01_roundtrip : forall f rest, wf_fcall f = true -> dec_fcall (enc_fcall f ++ rest) = Ok f.
+Proof. exact dec_fcall_enc. Qed.
+Print Assumptions C01_roundtrip.
+
+(* the same for a directory entry on its own (EncodeDir / the Dir case), as used by C17 *)
+Theorem C01_dir_roundtrip : forall fs rest, wf_dir fs = true -> dec_dir (enc_dir fs ++ rest) = Ok (fs, rest).
+Proof. exact dec_dir_enc. Qed.
+Print Assumptions C01_dir_roundtrip.
+
+(* 5. Non-vacuity: each of the 27 type bytes has a wire-representable message. *)
+Definition sample_qid : qid := {| q_type := 128; q_vers := 7; q_path := 18446744073709551615 |}.
+Definition sample_dir : list fval :=
+  [FInt 2 1; FInt 4 2; FQid sample_qid; FInt 4 2147484141; FTime 1600000000%Z; FTime 4294967295%Z; FInt 8 4096;
+   FStr [110; 97; 109; 101]; FStr [117]; FStr []; FStr [255; 0]].
+Definition sample_of_kind (k : kind) : val :=
+  match k with
+  | KInt w => VF (FInt w (2 ^ (8 * w) - 1))
+  | KStr => VF (FStr [57; 80; 0; 255])
+  | KData => VF (FData [0; 1; 2; 255])
+  | KStrs => VF (FStrs [[97]; []; [46; 46]])
+  | KQid => VF (FQid sample_qid)
+  | KQids => VF (FQids [sample_qid; sample_qid])
+  | KTime => VF (FTime 0%Z)
+  | KDir => VDir sample_dir
+  end.
+Definition sample_fcall (t : N) : fcall :=
+  {| fc_type := t; fc_tag := 65534;
+     fc_fields := match kinds_of_type t with Some ks => map sample_of_kind ks | None => [] end |}.
+
+Example C01_all_kinds :
+  forallb (fun t => wf_fcall (sample_fcall t)) spec_types = true /\ List.length spec_types = 27%nat.
+Proof. split; vm_compute; reflexivity. Qed.
+Print Assumptions C01_all_kinds.
